@@ -646,7 +646,8 @@ def r16_4(chk, mol, xyz):
         f0 = seq_items(init)[0]
         first_is_count = "len(self)" in f0.key()
     rq = "parse_xyz_string"
-    rev = xyz.ev(rq)
+    from ..normalise import pipeline_to_loops
+    rev = xyz.ev(rq, post=pipeline_to_loops)         # a reader written as a pipeline of comprehensions is read as the loops it abbreviates
     chk.saw(XYZ, rq)
     start = None
     for l in rev.all_loops:
@@ -662,6 +663,13 @@ def r16_4(chk, mol, xyz):
     tok_el = tok_xyz = None
     split_ok = None
     same_loop = set()
+    import re as _re
+
+    def walk_of(e):
+        """which lines an append sees: the sequences its loops run over and the conditions on the way (two loops over the same lines
+        under the same conditions collect line by line the same as one loop does)"""
+        return (tuple(_re.sub(r"#\d+", "#", l.iter.key()) if l.iter is not None else str(l.k) for l in e.loops),
+                tuple(sorted((_re.sub(r"#\d+", "#", c.key()), pol) for c, pol in e.guards)))
     for e in rev.events:
         if e.kind != "call" or e.target is None or not e.target.key().endswith(".append"):
             continue
@@ -672,12 +680,12 @@ def r16_4(chk, mol, xyz):
                 tok_el = t[2][0].const_value()
                 sp = t[1].as_atom()
                 split_ok = bool(sp and sp[0] == "call" and call_name(sp) == ".split" and not sp[2])
-                same_loop.add(tuple(l.k for l in e.loops))
+                same_loop.add(walk_of(e))
         for a in find_atoms(arg, lambda a: a[0] == "slice"):
             lo, hi = a[1].const_value(), a[2].const_value()
             if lo is not None and hi is not None:
                 tok_xyz = (int(lo), int(hi))
-                same_loop.add(tuple(l.k for l in e.loops))
+                same_loop.add(walk_of(e))
     chk.ob("R16.4", XYZ, rq, "token 0 is the element symbol (through Element[...]), tokens 1:4 are x, y, z",
            tok_el == 0 and tok_xyz == (1, 4), expected="tokens[0], tokens[1:4]", found=f"tokens[{tok_el}], tokens{tok_xyz}")
     chk.ob("R16.4", XYZ, rq, "fields are split on any run of blanks (split() without a separator)", bool(split_ok))
